@@ -37,13 +37,18 @@ func TestC06CrashPoints(t *testing.T) {
 			Hardfork: vnode.DrawHardfork(t, 6),
 			Magic:    "verif.c06",
 		}
+		// a third of the DPoS cases run with the voting reward (the in-memory voting power ranking decides who is paid in
+		// every block) and with blocks biased towards stakes and votes
+		votingReward := opts.Consensus == "dpos" && rapid.IntRange(0, 2).Draw(t, "votingReward") == 0
+		opts.FundVault = votingReward
 		spec := vnode.NewSpec(opts)
+		spec.VotingReward = votingReward
 		G, err := vnode.Open(spec, "")
 		if err != nil {
 			t.Fatal(err)
 		}
 		defer G.Remove()
-		w0 := &vnode.World{NUsers: opts.NUsers, NBPs: opts.NBPs, Public: opts.Public, DPoS: opts.Consensus == "dpos"}
+		w0 := &vnode.World{NUsers: opts.NUsers, NBPs: opts.NBPs, Public: opts.Public, DPoS: opts.Consensus == "dpos", GovBias: votingReward}
 		tr := vnode.GenTree(t, G, w0, vnode.TreeOpts{MinBlocks: 2, MaxBlocks: 7, MaxTx: 3})
 		sched := vnode.DrawSchedule(t, tr)
 		for i := range tr.Blocks {
